@@ -133,6 +133,10 @@ func (fv *FuncVer) callValue(st *State, ins ssa.Instruction, callee Val, args []
 		name := "funcvalue"
 		if p := paramOf(cc.Value); p != nil {
 			name = "param:" + p.Name()
+		} else if pn := fv.entryParamOf(callee); pn != "" {
+			// a function-typed parameter of the function under verification reached through a
+			// closure that captured it
+			name = "param:" + pn
 		}
 		r := fv.callbackCall(st, ins, name, sig, args, cc)
 		fv.bindResult(st, res, r)
@@ -397,7 +401,13 @@ func (fv *FuncVer) callbackCall(st *State, ins ssa.Instruction, name string, sig
 	}
 	fv.recordEventT(st, name, ats, rts, ins)
 	// callback contracts of the function under verification
-	if p := paramOf(cc.Value); p != nil && len(st.frames) == 1 && fv.block != nil {
+	cbName := ""
+	if p := paramOf(cc.Value); p != nil && len(st.frames) == 1 {
+		cbName = p.Name()
+	} else if strings.HasPrefix(name, "param:") && len(st.frames) > 1 {
+		cbName = strings.TrimPrefix(name, "param:")
+	}
+	if cbName != "" && fv.block != nil {
 		env := fv.newEnv(st, st.old)
 		for k, v := range fv.entryVars {
 			env.vars[k] = v
@@ -408,9 +418,15 @@ func (fv *FuncVer) callbackCall(st *State, ins ssa.Instruction, name string, sig
 				env.vars[fmt.Sprintf("arg%d", i)] = SVal{T: a, Typ: ps.At(i).Type()}
 			}
 		}
+		env.rawArgs = args
+		fv.curCallbackSig = sig
+		if len(fv.block.ClausesOf("cbrequires")) > 0 {
+			// vacuity guard: the callback contracts are applied on some path
+			fv.addCover(st, "callback:"+cbName, "a call of the callback "+cbName+" is reachable and under its contract")
+		}
 		n := 0
 		for _, cl := range fv.block.ClausesOf("cbrequires") {
-			if cl.Target != p.Name() {
+			if cl.Target != cbName {
 				continue
 			}
 			n++
@@ -419,7 +435,7 @@ func (fv *FuncVer) callbackCall(st *State, ins ssa.Instruction, name string, sig
 				label = fmt.Sprintf("#%d", n)
 			}
 			g := fv.evalBool(env, cl.Expr)
-			fv.oblige(st, "callback:"+p.Name()+"/requires["+label+"]", "", ins.Pos(), g, "at every call of "+p.Name()+": "+cl.Text)
+			fv.oblige(st, "callback:"+cbName+"/requires["+label+"]", "", ins.Pos(), g, "at every call of "+cbName+": "+cl.Text)
 			st.assume(g)
 		}
 		for i, t := range rts {
@@ -435,7 +451,7 @@ func (fv *FuncVer) callbackCall(st *State, ins ssa.Instruction, name string, sig
 		}
 		var ups []upd
 		for _, cl := range fv.block.ClausesOf("cbupdate") {
-			if cl.Target != p.Name() {
+			if cl.Target != cbName {
 				continue
 			}
 			v := env.eval(cl.Expr)
@@ -966,4 +982,22 @@ func mentionsEvents(e *SExpr, eng *Engine) bool {
 		}
 	}
 	return false
+}
+
+// entryParamOf: the name of the function-typed parameter of the function under verification whose
+// (symbolic) entry value is the given callee.
+func (fv *FuncVer) entryParamOf(callee Val) string {
+	t, ok := callee.(*Term)
+	if !ok {
+		return ""
+	}
+	for _, p := range fv.fn.Params {
+		if _, isFn := p.Type().Underlying().(*types.Signature); !isFn {
+			continue
+		}
+		if ev, ok := fv.entryVars[p.Name()]; ok && ev.T != nil && sameTerm(ev.T, t) {
+			return p.Name()
+		}
+	}
+	return ""
 }
